@@ -441,7 +441,7 @@ def run_case(case, keep_log=False):
     rng = Rng(case.get("env_seed", 0), "schedules")
     model = {}
 
-    def explained(sched, other, norm):
+    def explained(sched, other, norm, budget=LINE_BUDGET_R):
         """Does the defect model of the known desugaring defects (sim/defectmodel.py)
         behave exactly like `other` = (history, outcome) on this schedule?  Only
         consulted after a mismatch with the reference R."""
@@ -450,7 +450,7 @@ def run_case(case, keep_log=False):
         if model["fn"] is None:
             return False
         envD = Env(sched["seed"], sched["faults"])
-        outD, _n = run_traced(model["fn"], bind(params, envD, sched["a"], sched["b"]), LINE_BUDGET_R)
+        outD, _n = run_traced(model["fn"], bind(params, envD, sched["a"], sched["b"]), budget)
         stats["model_runs"] = stats.get("model_runs", 0) + 1
         # NameError and UnboundLocalError are identified here for T as well: a mismatch
         # that is the model's behaviour except that a name whose only store was pruned
@@ -499,7 +499,7 @@ def run_case(case, keep_log=False):
             stats["t_runs"] += 1
             d = compare(ref, (envT.history, outT), "T")
             if d is not None:
-                if explained(sched, (envT.history, outT), False):
+                if explained(sched, (envT.history, outT), False, budget):
                     d = ("known-desugaring:" + d[0],) + d[1:]
                 viol("C07", d[0], "", d[1], d[2], sched)
             verdicts.append(["T", d[0] if d else "ok"])
@@ -515,7 +515,7 @@ def run_case(case, keep_log=False):
                 continue
             d = compare((ref[0], _name_norm(ref[1])), (envB.history, _name_norm(outB)), "B")
             if d is not None:
-                if explained(sched, (envB.history, outB), True):
+                if explained(sched, (envB.history, outB), True, budget):
                     d = ("known-desugaring:" + d[0],) + d[1:]
                 viol("C08", d[0], "prune=%s" % prune, d[1], d[2], sched)
             verdicts.append(["B%d" % prune, d[0] if d else "ok"])
